@@ -591,6 +591,29 @@ class WSGIApp:
                 obj.update()
                 yield obj
 
+    def _update_identifiable(self, identifiable: model.Identifiable, new: model.Identifiable) -> None:
+        """
+        Update an object of the object store from the object of a request body and commit it
+
+        The object store finds an object by its id. If the request changes the id, the object is taken out of the store
+        (where it is filed under its old id) before the update and added again afterwards.
+
+        :raises Conflict: If the new id belongs to another object of the store (nothing has been changed then)
+        """
+        if new.id == identifiable.id:
+            identifiable.update_from(new)
+            identifiable.commit()
+            return
+        if self.object_store.get(new.id) is not None:
+            raise Conflict(f"{identifiable!r} cannot get the Identifier {new.id}, it already exists!")
+        self.object_store.discard(identifiable)
+        try:
+            identifiable.update_from(new)
+        finally:
+            # also if the update failed: the object must not get lost
+            self.object_store.add(identifiable)
+        identifiable.commit()
+
     def _resolve_reference(self, reference: model.ModelReference[model.base._RT]) -> model.base._RT:
         try:
             return reference.resolve(self.object_store)
@@ -781,9 +804,8 @@ class WSGIApp:
 
     def put_aas(self, request: Request, url_args: Dict, response_t: Type[APIResponse], **_kwargs) -> Response:
         aas = self._get_shell(url_args)
-        aas.update_from(HTTPApiDecoder.request_body(request, model.AssetAdministrationShell,
-                                                    is_stripped_request(request)))
-        aas.commit()
+        self._update_identifiable(aas, HTTPApiDecoder.request_body(request, model.AssetAdministrationShell,
+                                                                   is_stripped_request(request)))
         return response_t()
 
     def delete_aas(self, request: Request, url_args: Dict, response_t: Type[APIResponse], **_kwargs) -> Response:
@@ -835,9 +857,7 @@ class WSGIApp:
         new_submodel = HTTPApiDecoder.request_body(request, model.Submodel, is_stripped_request(request))
         # determine whether the id changed in advance, in case something goes wrong while updating the submodel
         id_changed: bool = submodel.id != new_submodel.id
-        # TODO: https://github.com/eclipse-basyx/basyx-python-sdk/issues/216
-        submodel.update_from(new_submodel)
-        submodel.commit()
+        self._update_identifiable(submodel, new_submodel)
         if id_changed:
             aas.submodel.remove(sm_ref)
             aas.submodel.add(model.ModelReference.from_referable(submodel))
@@ -924,8 +944,8 @@ class WSGIApp:
 
     def put_submodel(self, request: Request, url_args: Dict, response_t: Type[APIResponse], **_kwargs) -> Response:
         submodel = self._get_submodel(url_args)
-        submodel.update_from(HTTPApiDecoder.request_body(request, model.Submodel, is_stripped_request(request)))
-        submodel.commit()
+        self._update_identifiable(submodel, HTTPApiDecoder.request_body(request, model.Submodel,
+                                                                        is_stripped_request(request)))
         return response_t()
 
     def get_submodel_submodel_elements(self, request: Request, url_args: Dict, response_t: Type[APIResponse],
@@ -1194,9 +1214,9 @@ class WSGIApp:
     def put_concept_description(self, request: Request, url_args: Dict, response_t: Type[APIResponse],
                                 **_kwargs) -> Response:
         concept_description = self._get_concept_description(url_args)
-        concept_description.update_from(HTTPApiDecoder.request_body(request, model.ConceptDescription,
-                                                                    is_stripped_request(request)))
-        concept_description.commit()
+        self._update_identifiable(concept_description,
+                                  HTTPApiDecoder.request_body(request, model.ConceptDescription,
+                                                              is_stripped_request(request)))
         return response_t()
 
     def delete_concept_description(self, request: Request, url_args: Dict, response_t: Type[APIResponse],
